@@ -606,6 +606,8 @@ CORPUS_MESON = [
       {'type': 'target', 'target': 'prog', 'operation': 'extra_files_rm', 'sources': ['e0.txt', 'e2.txt']}]),
     ("project('p')\nprog = executable('prog', 's0.c', 's1.c', files('s2.c', 's3.c'), install: false) # trailing\nz = 1\n",
      [{'type': 'target', 'target': 'prog', 'operation': 'src_rm', 'sources': ['s0.c', 's2.c']}]),
+    ("project('p')\nt0 = executable('t0', 's0.c', c_args: ['a \\nb', '''ml  \nx'''])\n",
+     [{'type': 'target', 'target': 't0', 'operation': 'src_add', 'sources': ['new0.c']}]),
     ("project('p', default_options: ['warning_level=1'])\nt0 = executable('t0', 's0.c')\n",
      [{'type': 'default_options', 'operation': 'set', 'options': {'warning_level': '3', 'werror': 'true'}},
       {'type': 'default_options', 'operation': 'delete', 'options': {'werror': None}}]),
